@@ -143,13 +143,18 @@ def _deps(fn: ast.AST, roots: Set[str], params: Set[str]) -> Set[str]:
         if n in seen:
             continue
         seen.add(n)
-        if n in params:
+        if params is not None and n in params:
             out.add(n)
         for v in defs.get(n, []):
             for x in ast.walk(v):
                 if isinstance(x, ast.Name) and x.id not in seen:
                     work.append(x.id)
-    return out
+    return out if params is not None else seen
+
+
+def name_closure(fn: ast.AST, roots: Set[str]) -> Set[str]:
+    """every local / parameter name the given names transitively depend on (see _deps)"""
+    return _deps(fn, roots, None)  # type: ignore[arg-type]
 
 
 def persistent_memo_hazards(fn: ast.AST, private_attr) -> Tuple[List[Tuple[str, str, List[str], ast.AST]], int]:
